@@ -76,12 +76,12 @@ theorem C06_collect_congruent (s : LState) (b wd : Bool) (d : Nat) (t : Str) :
 
 /-- `%v` / `%s` (detail = false) and `%+v` (detail = true) in redactable mode -/
 theorem C06_wellformed (e : Err) (h : WFE e) (detail : Bool) : LW (renderT true detail e) :=
-  renderT_LW true detail e h
+  renderT_LW detail e h
 
 /-- what `redact.Sprintf("%v" / "%+v", err)` returns: the rendering passed through the redact printer -/
 theorem C06_wellformed_sprintf (e : Err) (h : WFE e) (detail : Bool) :
     LW (assembleT [.preT (renderT true detail e)]) :=
-  LW_assembleT _ (by intro g hg; simp at hg; subst hg; exact renderT_LW true detail e h)
+  LW_assembleT _ (by intro g hg; simp at hg; subst hg; exact renderT_LW detail e h)
 
 /-- and its `Redact()` form -/
 theorem C06_wellformed_redacted (e : Err) (h : WFE e) (detail : Bool) :
@@ -97,17 +97,17 @@ theorem C06_plain_no_markers_in_entries (s : LState) (b wd : Bool) (d : Nat) (t 
 /-- on bytes: the string a caller receives is `unlex` of the tokens; lexing it gives the same
     tokens back — hence the same well-formedness — unless three adjacent plain bytes of the
     rendering spell a marker -/
-theorem C06_bytes (e : Err) (h : WFE e) (detail : Bool) (hs : NoSpell (renderT true detail e)) :
+theorem C06_bytes (e : Err) (h : WFE e) (detail : Bool) (hs : NoSpell (eraseLabel (renderT true detail e))) :
     LW (lex (render true detail e)) := by
   unfold render
-  rw [lex_unlex _ hs]
-  exact renderT_LW true detail e h
+  rw [lex_unlex_erase _ hs]
+  exact lw_eraseLabel _ false false (renderT_LW detail e h)
 
 /-- the hypothesis is met by what the constructors store: a message assembled by the redact
     printer is well-formed (and so are all its byte-level readings without a spelled marker) -/
-theorem C06_stored_by_constructors (segs : List SegT) (hs : ∀ g ∈ segs, g.ok) (hn : NoSpell (assembleT segs)) :
+theorem C06_stored_by_constructors (segs : List SegT) (hs : ∀ g ∈ segs, g.ok) (hn : NoSpell (eraseLabel (assembleT segs))) :
     LW (lex (unlex (assembleT segs))) := by
-  rw [lex_unlex _ hn]; exact LW_assembleT segs hs
+  rw [lex_unlex_erase _ hn]; exact lw_eraseLabel _ false false (LW_assembleT segs hs)
 
 /-- a concrete hostile instance of the hypothesis: unsafe pieces with marker runes, newlines at
     both ends, NUL and invalid UTF-8 between safe pieces with a marker rune -/
